@@ -164,7 +164,7 @@ def run(ctx):
     nG = 25 if quick else 250
     gs = []
     while len(gs) < nG:
-        g = M.rand_grammar(ctx.rng)
+        g = M.rand_nullable_grammar(ctx.rng, nT=ctx.rng.randint(1, 2)) if len(gs) % 4 == 3 else M.rand_grammar(ctx.rng)
         if finitely_ambiguous(g):
             gs.append(g)
     stream(ctx, gs, "frac", 3, 0)
